@@ -349,8 +349,18 @@ def case_annot(ctx, spec, rng):
     naps = rng.choice([1, 1, 2, n_annot])
     b = rng.choice([1, 2, 3, n, naps * 2, naps * 3])
     seed = rng.randrange(10**6)
+    # annotator performances given by the caller (vector or per-sample matrix, ties and large spreads included) in half of
+    # the cases; otherwise the wrapper draws them
+    r0 = rng.random()
+    if r0 < 0.25:
+        A_perf = np.array([float(rng.choice([0, 1, 1, 2, 3, 10])) for _ in range(n_annot)])
+    elif r0 < 0.5:
+        A_perf = np.array([[rng.choice([0.0, 0.25, 0.5, 1.0, 4.0]) for _ in range(n_annot)] for _ in range(n)])
+    else:
+        A_perf = None
+    ctx.count("annot_A_perf_" + ("none" if A_perf is None else ("vector" if A_perf.ndim == 1 else "matrix")))
     case = dict(wrapper="single-annotator", spec=spec.name, n=n, n_annotators=n_annot, n_annotators_per_sample=naps, b=int(b), seed=seed,
-                X=data["X"], y=y2, candidates=None, rng_state=[rng_state[0], list(rng_state[1]), rng_state[2]])
+                X=data["X"], y=y2, candidates=None, A_perf=A_perf, rng_state=[rng_state[0], list(rng_state[1]), rng_state[2]])
     log = []
     inner = make_proxy(spec.make(seed), log)
     w = SingleAnnotatorWrapper(strategy=inner, random_state=seed)
@@ -359,7 +369,7 @@ def case_annot(ctx, spec, rng):
     try:
         with _pool.alarm(60), warnings.catch_warnings(), np.errstate(all="ignore"):
             warnings.simplefilter("ignore")
-            pairs = w.query(data["X"], y2, batch_size=int(b), n_annotators_per_sample=naps, **kw)
+            pairs = w.query(data["X"], y2, batch_size=int(b), n_annotators_per_sample=naps, A_perf=None if A_perf is None else A_perf.copy(), **kw)
     except Exception as e:
         ctx.case(("annot", spec.name, n, n_annot, naps, b, seed), True, sample=dict(case_summary(case), result=f"ERR {type(e).__name__}: {e}"))
         ctx.count("annot_query_raised")   # C07's business
